@@ -97,6 +97,10 @@ func NewWorld(seed int64, n int) *World {
 	return w
 }
 
+// Use makes this world's virtual clock the process-wide one again (a driver that alternates between several
+// worlds calls it before touching a world's nodes).
+func (w *World) Use() { verifclock.Set(w.Clock) }
+
 // Name returns the short role name of an address ("k0".."kN") or its hex when unknown.
 func (w *World) Name(a common.Address) string {
 	if i := w.Index(a); i >= 0 {
